@@ -2,7 +2,6 @@ package main
 
 import (
 	"fmt"
-	"os"
 	"go/token"
 	"go/types"
 	"sort"
@@ -799,66 +798,142 @@ func (P *Prog) relevantFn(fn *ssa.Function) bool {
 // goes into memory it allocated itself with reflect.MakeSlice / MakeMap / New. Its branches (Kind switches, IsNil
 // guards) decide nothing about the node and its calls are not entered on the node's decision paths.
 func (P *Prog) pureValueHelper(fn *ssa.Function) bool {
-	if fn.Blocks == nil || fn.Parent() != nil || len(fn.Params) == 0 {
+	_, ok := P.reflectCluster(fn)
+	return ok
+}
+
+// reflectCluster: fn and the module functions it calls (transitively) form a closed group of pure reflect helpers -
+// parameters of type reflect.Value / reflect.Type / integers / booleans only, no store outside locals, no call other
+// than builtins, reflect, and members of the group - whose reflect writes all land in memory the group allocated: a
+// write's target is rooted in a reflect.MakeSlice / New / MakeMap made in the same function, or in a parameter of an
+// unexported member every one of whose call sites lies in the group and passes such a fresh value there
+// (`deepCopyElems(cp, v)`). Returns the members.
+func (P *Prog) reflectCluster(fn *ssa.Function) ([]*ssa.Function, bool) {
+	if fn == nil || fn.Blocks == nil || fn.Parent() != nil || len(fn.Params) == 0 {
+		return nil, false
+	}
+	okParam := func(t types.Type) bool {
+		switch typeStr(t) {
+		case "reflect.Value", "reflect.Type", "reflect.Kind":
+			return true
+		}
+		if b, isB := t.Underlying().(*types.Basic); isB && b.Info()&(types.IsInteger|types.IsBoolean) != 0 {
+			return true
+		}
 		return false
 	}
-	for _, p := range fn.Params {
-		if typeStr(p.Type()) != "reflect.Value" {
+	members := map[*ssa.Function]bool{}
+	var order []*ssa.Function
+	var visit func(f *ssa.Function) bool
+	visit = func(f *ssa.Function) bool {
+		if members[f] {
+			return true
+		}
+		if f.Blocks == nil || f.Parent() != nil || !inModule(funcPkgPath(f)) || len(order) > 8 {
 			return false
 		}
-	}
-	ok := true
-	eachInstr(fn, func(_ *ssa.BasicBlock, _ int, in ssa.Instruction) {
-		if !ok {
-			return
-		}
-		switch in.(type) {
-		case *ssa.Store, *ssa.MapUpdate, *ssa.Send, *ssa.Go, *ssa.Defer, *ssa.Panic:
-			if st, isSt := in.(*ssa.Store); isSt {
-				if al, isAl := st.Addr.(*ssa.Alloc); isAl && al.Parent() == fn {
-					return // a spilled local
-				}
+		for _, p := range f.Params {
+			if !okParam(p.Type()) {
+				return false
 			}
-			ok = false
-			return
 		}
-		ci := callOf(in)
-		if ci == nil {
-			return
-		}
-		switch {
-		case ci.builtin != "":
-		case ci.static == fn:
-		case ci.invoke != nil && ci.invoke.Pkg() != nil && ci.invoke.Pkg().Path() == "reflect": // a method of reflect.Type
-		case ci.static != nil && isPkgFunc(ci.static, "reflect"):
-			if _, isW := reflectWriters[ci.static.Name()]; isW {
-				fresh := false
-				for _, rt := range P.rootsOf(ci.args()[0]) {
-					if c2, isCall := rt.v.(*ssa.Call); isCall && callOf(c2).static != nil && isPkgFunc(callOf(c2).static, "reflect") {
-						switch callOf(c2).static.Name() {
-						case "MakeSlice", "New", "MakeMap", "MakeMapWithSize", "Zero":
-							fresh = true
-							continue
-						}
+		members[f] = true
+		order = append(order, f)
+		ok := true
+		eachInstr(f, func(_ *ssa.BasicBlock, _ int, in ssa.Instruction) {
+			if !ok {
+				return
+			}
+			switch in.(type) {
+			case *ssa.Store, *ssa.MapUpdate, *ssa.Send, *ssa.Go, *ssa.Defer, *ssa.Panic:
+				if st, isSt := in.(*ssa.Store); isSt {
+					if al, isAl := st.Addr.(*ssa.Alloc); isAl && al.Parent() == f {
+						return // a spilled local
 					}
-					fresh = false
-					break
 				}
-				if !fresh {
-					if os.Getenv("ZOGCHECK_DEBUG") != "" {
-						fmt.Println("DEBUG pure: not fresh", in, P.rootsOf(ci.args()[0]))
-					}
+				ok = false
+				return
+			}
+			ci := callOf(in)
+			if ci == nil {
+				return
+			}
+			switch {
+			case ci.builtin != "":
+			case ci.invoke != nil && ci.invoke.Pkg() != nil && ci.invoke.Pkg().Path() == "reflect": // a method of reflect.Type
+			case ci.static != nil && isPkgFunc(ci.static, "reflect"):
+			case ci.static != nil && inModule(funcPkgPath(ci.static)):
+				if !visit(ci.static) {
 					ok = false
 				}
+			default:
+				ok = false
 			}
-		default:
-			if os.Getenv("ZOGCHECK_DEBUG") != "" {
-				fmt.Println("DEBUG pure: call", in)
-			}
-			ok = false
+		})
+		return ok
+	}
+	if !visit(fn) {
+		return nil, false
+	}
+	// where do the reflect writes land?
+	var freshIn func(f *ssa.Function, v ssa.Value, depth int) bool
+	freshIn = func(f *ssa.Function, v ssa.Value, depth int) bool {
+		if depth > 3 {
+			return false
 		}
-	})
-	return ok
+		rs := P.rootsOf(v)
+		if len(rs) == 0 {
+			return false
+		}
+		for _, rt := range rs {
+			if c2, isCall := rt.v.(*ssa.Call); isCall && callOf(c2).static != nil && isPkgFunc(callOf(c2).static, "reflect") {
+				switch callOf(c2).static.Name() {
+				case "MakeSlice", "New", "MakeMap", "MakeMapWithSize", "Zero":
+					continue
+				}
+			}
+			// the result of a member that returns a fresh value (`newSettable(t)`)
+			if c2, isCall := rt.v.(*ssa.Call); isCall && callOf(c2).static != nil && members[callOf(c2).static] {
+				continue
+			}
+			if prm, isP := rt.v.(*ssa.Parameter); isP && prm.Parent() == f && f != fn {
+				idx := -1
+				for i, q := range f.Params {
+					if q == prm {
+						idx = i
+					}
+				}
+				sites, closed := P.closedCallSites(f)
+				if idx < 0 || !closed || len(sites) == 0 {
+					return false
+				}
+				for _, site := range sites {
+					if !members[site.Parent()] || idx >= len(site.Common().Args) || !freshIn(site.Parent(), site.Common().Args[idx], depth+1) {
+						return false
+					}
+				}
+				continue
+			}
+			return false
+		}
+		return true
+	}
+	for _, f := range order {
+		bad := false
+		eachInstr(f, func(_ *ssa.BasicBlock, _ int, in ssa.Instruction) {
+			ci := callOf(in)
+			if ci == nil || ci.static == nil || !isPkgFunc(ci.static, "reflect") {
+				return
+			}
+			if _, isW := reflectWriters[ci.static.Name()]; isW && !freshIn(f, ci.args()[0], 0) {
+				bad = true
+			}
+		})
+		if bad {
+			return nil, false
+		}
+	}
+	return order, true
 }
 
 // inlinable: the call is followed into its callee.
